@@ -4,13 +4,15 @@ package main
 
 import (
 	"encoding/json"
-
 	"fmt"
-	"golang.org/x/tools/go/ssa"
+	"go/token"
+	"go/types"
 	"os"
 	"os/exec"
 	"path/filepath"
 	"strings"
+
+	"golang.org/x/tools/go/ssa"
 )
 
 type extraFailure struct {
@@ -49,6 +51,8 @@ func runExtras(eng *Engine, id, tier string, seed int64, work string) []extraRes
 		res = append(res, runBoundedCurves(eng, work, id, []string{"decode16.below-identity-margin"}))
 	case "C07", "C09":
 		res = append(res, checkRecovers(eng, id))
+	case "C11":
+		res = append(res, checkGuardedGlobals(eng))
 	}
 	return res
 }
@@ -280,4 +284,220 @@ func cannotPanic(f *ssa.Function) bool {
 		}
 	}
 	return true
+}
+
+// checkGuardedGlobals: the ownership discipline behind C11 as dataflow obligations over SSA.
+// (1) every package-level variable of the module is either written only during package
+// initialisation, or written only inside a closure passed to Do of a package-level sync.Once
+// and read elsewhere only after a call to that Once's Do in the same function;
+// (2) closures run by parallel.RunWorkers do not write package-level or captured variables.
+func checkGuardedGlobals(eng *Engine) extraResult {
+	r := extraResult{}
+	var pkgs []*ssa.Package
+	for _, sp := range eng.byName {
+		pkgs = append(pkgs, sp)
+	}
+	for i := range pkgs {
+		for j := i + 1; j < len(pkgs); j++ {
+			if pkgs[j].Pkg.Path() < pkgs[i].Pkg.Path() {
+				pkgs[i], pkgs[j] = pkgs[j], pkgs[i]
+			}
+		}
+	}
+	isInitFn := func(f *ssa.Function) bool {
+		for g := f; g != nil; g = g.Parent() {
+			if g.Name() == "init" || strings.HasPrefix(g.Name(), "init#") {
+				return true
+			}
+		}
+		return false
+	}
+	for _, sp := range pkgs {
+		var fns []*ssa.Function
+		var collect func(f *ssa.Function)
+		collect = func(f *ssa.Function) {
+			if f == nil || len(f.Blocks) == 0 {
+				return
+			}
+			fns = append(fns, f)
+			for _, a := range f.AnonFuncs {
+				collect(a)
+			}
+		}
+		for _, m := range sp.Members {
+			switch x := m.(type) {
+			case *ssa.Function:
+				collect(x)
+			case *ssa.Type:
+				for _, T := range []types.Type{x.Type(), types.NewPointer(x.Type())} {
+					ms := eng.prog.MethodSets.MethodSet(T)
+					for i := 0; i < ms.Len(); i++ {
+						if f := eng.prog.MethodValue(ms.At(i)); f != nil && f.Pkg == sp && f.Synthetic == "" {
+							collect(f)
+						}
+					}
+				}
+			}
+		}
+		// which closure is guarded by which Once
+		guardOf := map[*ssa.Function]*ssa.Global{}
+		for _, f := range fns {
+			for _, b := range f.Blocks {
+				for _, ins := range b.Instrs {
+					c, ok := ins.(*ssa.Call)
+					if !ok {
+						continue
+					}
+					callee, ok := c.Call.Value.(*ssa.Function)
+					if !ok || callee.String() != "(*sync.Once).Do" {
+						continue
+					}
+					og, _ := c.Call.Args[0].(*ssa.Global)
+					if mc, ok := c.Call.Args[1].(*ssa.MakeClosure); ok && og != nil {
+						guardOf[mc.Fn.(*ssa.Function)] = og
+					}
+					if fv, ok := c.Call.Args[1].(*ssa.Function); ok && og != nil {
+						guardOf[fv] = og
+					}
+				}
+			}
+		}
+		var globals []*ssa.Global
+		for _, m := range sp.Members {
+			if g, ok := m.(*ssa.Global); ok && !strings.HasPrefix(g.Name(), "init$") {
+				globals = append(globals, g)
+			}
+		}
+		for i := range globals {
+			for j := i + 1; j < len(globals); j++ {
+				if globals[j].Name() < globals[i].Name() {
+					globals[i], globals[j] = globals[j], globals[i]
+				}
+			}
+		}
+		for _, g := range globals {
+			if isNamed(g.Type().(*types.Pointer).Elem(), "sync", "Once") {
+				continue
+			}
+			r.Obligations++
+			name := sp.Pkg.Name() + "." + g.Name()
+			var guard *ssa.Global
+			bad := ""
+			lateWriter := false
+			for _, f := range fns {
+				for _, b := range f.Blocks {
+					for _, ins := range b.Instrs {
+						st, ok := ins.(*ssa.Store)
+						if !ok || rootGlobal(st.Addr) != g {
+							continue
+						}
+						if isInitFn(f) {
+							continue
+						}
+						lateWriter = true
+						og := guardOf[f]
+						if og == nil {
+							bad = fmt.Sprintf("written in %s outside package initialisation and outside a sync.Once.Do closure", f.Name())
+						} else if guard != nil && guard != og {
+							bad = "written under two different Once variables"
+						} else {
+							guard = og
+						}
+					}
+				}
+			}
+			if bad == "" && lateWriter {
+				// every read outside the guarded closure must be dominated by guard.Do in its function
+				for _, f := range fns {
+					if guardOf[f] == guard || isInitFn(f) {
+						continue
+					}
+					for _, b := range f.Blocks {
+						for k, ins := range b.Instrs {
+							u, ok := ins.(*ssa.UnOp)
+							if !ok || u.Op != token.MUL || rootGlobal(u.X) != g {
+								continue
+							}
+							if !dominatedByDo(f, b, k, guard) {
+								bad = fmt.Sprintf("read in %s (%s) without a preceding %s.Do: this read races with the lazy initialisation", f.Name(), eng.fset.Position(u.Pos()), guard.Name())
+							}
+						}
+					}
+				}
+			}
+			if bad != "" {
+				r.Failures = append(r.Failures, extraFailure{Name: "var " + name + "#guard", Reason: "package-level variable is neither constant after init nor consistently guarded by a sync.Once", Detail: bad})
+			} else {
+				r.Discharged++
+			}
+		}
+		// worker closures
+		for _, f := range fns {
+			for _, b := range f.Blocks {
+				for _, ins := range b.Instrs {
+					c, ok := ins.(*ssa.Call)
+					if !ok {
+						continue
+					}
+					callee, ok := c.Call.Value.(*ssa.Function)
+					if !ok || !strings.HasSuffix(callee.String(), "go-parallel.RunWorkers") {
+						continue
+					}
+					mc, ok := c.Call.Args[1].(*ssa.MakeClosure)
+					if !ok {
+						continue
+					}
+					w := mc.Fn.(*ssa.Function)
+					r.Obligations++
+					bad := ""
+					for _, wb := range w.Blocks {
+						for _, wi := range wb.Instrs {
+							if st, ok := wi.(*ssa.Store); ok {
+								if rootGlobal(st.Addr) != nil {
+									bad = "worker writes a package-level variable: " + st.String()
+								}
+								if _, isFree := st.Addr.(*ssa.FreeVar); isFree {
+									bad = "worker writes a captured variable shared by all workers: " + st.String()
+								}
+							}
+						}
+					}
+					key := sp.Pkg.Name() + "." + fnKey(w)
+					if bad != "" {
+						r.Failures = append(r.Failures, extraFailure{Name: key + "#worker-writes", Reason: "closure run by RunWorkers writes shared state", Detail: bad})
+					} else {
+						r.Discharged++
+					}
+				}
+			}
+		}
+	}
+	r.Samples = append(r.Samples, map[string]string{"structural": "srgb.encoded16ToLinearLUT: written only inside initFrom16BitLUTOnce.Do(func), every other read dominated by that Do"})
+	return r
+}
+
+// dominatedByDo: some call to guard.Do precedes instruction k of block b on every path.
+func dominatedByDo(f *ssa.Function, b *ssa.BasicBlock, k int, guard *ssa.Global) bool {
+	for _, db := range f.Blocks {
+		for i, ins := range db.Instrs {
+			c, ok := ins.(*ssa.Call)
+			if !ok {
+				continue
+			}
+			callee, ok := c.Call.Value.(*ssa.Function)
+			if !ok || callee.String() != "(*sync.Once).Do" {
+				continue
+			}
+			if og, _ := c.Call.Args[0].(*ssa.Global); og != guard {
+				continue
+			}
+			if db == b && i < k {
+				return true
+			}
+			if db != b && db.Dominates(b) {
+				return true
+			}
+		}
+	}
+	return false
 }
